@@ -1016,7 +1016,15 @@ def run(ctx):
     warnings.simplefilter('ignore')
     from gnpy.core import elements as E
     rng = ctx.rng
+    # second tie: re-translate the design arithmetic of gnpy/core/network.py and utils.round2float from /repo's source; the
+    # equivalence lemmas of Proofs/PowerDesignGen.v are then re-checked by check_props against what the code says now
+    from . import pygen_c09
+    gen_ok, gen_msg = pygen_c09.regenerate()
     ctx.proof = common.check_props('C09')
+    if not gen_ok:
+        ctx.proof['ok'] = False
+        ctx.proof['log'] = 'harness/pygen_c09.py: ' + gen_msg + '\n' + ctx.proof.get('log', '')
+        ctx.proof['failed_file'] = 'theories/Gen/PowerDesignGen.v (translation of /repo source failed)'
     ctx.rule = ('random networks (0-4 ROADMs + optional point-to-point line, 1-4 spans per direction, fibre/fused spans, '
                 'explicit amplifiers with full / partial / no operator settings and imposed variety or variety list, '
                 'auto-inserted boosters/preamps/in-line amplifiers) x random Span (power/gain mode, delta_power_range, '
@@ -1176,6 +1184,11 @@ def run(ctx):
                     continue
                 oracle_propagation(ctx, c, built, o, p0, pref_ch, rec, desc, case)
     ctx.assumptions += [
+        'translator tie: harness/pygen_c09.py (fail-closed Python-ast -> Gallina over Q, on harness/pygen.py: templates for '
+        'utils.round2float, target_power, span_loss, add_fiber_padding, compute_gain_power_and_tilt_target, '
+        'set_one_amplifier, set_amplifier_voa and the per band initialisation / walk loop of set_egress_amplifier; '
+        'translated holes: rounding, slope rule and clamps, padding test / att_in / recorded loss, dp and gain targets of '
+        'both modes, saturation reductions, automatic VOA, start offset, total reference power)',
         'pref_ch_db, pref_total_db = pref_ch_db + 10 log10(nb_channels), PSD/PSW ROADM targets and loss_coef x length are '
         'inputs of the model computed by the harness with math.log10 / plain products, independently of gnpy.core.utils',
         'noise figures of the candidates of each auto-designed node are inputs recorded with gnpy.core.network.edfa_nf',
